@@ -7,11 +7,16 @@ import numpy as np
 
 from models import fcs_ref
 
+LAYOUT_A = ['FSC-H', 'SSC-H', 'FSC-A', 'SSC-A', 'FL1-H', 'FL2-H', 'Time']
 INSTRUMENTS = [
-    {'ID': 'I1', 'fsc': 'FSC-H', 'ssc': 'SSC-H', 'fl': ['FL1-H', 'FL2-H'], 'time': 'Time'},
+    {'ID': 'I1', 'fsc': 'FSC-H', 'ssc': 'SSC-H', 'fl': ['FL1-H', 'FL2-H'], 'time': 'Time', 'layout': LAYOUT_A},
     {'ID': 'I2', 'fsc': 'FSC-A', 'ssc': 'SSC-A', 'fl': ['BL1-A', 'YL2-A'], 'time': 'TIME'},
     {'ID': 'I3', 'fsc': 'FS Lin', 'ssc': 'SS Log', 'fl': ['GFP', 'mCh', 'BFP'], 'time': 'time'},
 ]
+# the same cytometer described through its area scatter signals: same files, other scatter channels
+SIBLING = {'ID': 'I1A', 'fsc': 'FSC-A', 'ssc': 'SSC-A', 'fl': ['FL1-H', 'FL2-H'], 'time': 'Time', 'layout': LAYOUT_A}
+# a wide panel (more than ten reported histograms per figure)
+WIDE = {'ID': 'IW', 'fsc': 'FSC', 'ssc': 'SSC', 'fl': ['V%d-A' % i for i in range(1, 13)], 'time': 'Time'}
 MEF_LADDER = [0, 800, 2500, 8000, 25000, 80000, 240000]
 UNITS_OK = ['Channel', 'channel', 'CHANNEL', 'RFI', 'rfi', 'a.u.', 'A.U.', 'au', 'AU', 'MEF', 'mef', 'Mef', ' MEF ']
 
@@ -22,82 +27,92 @@ BEAD_FAULTS = ['file_not_found', 'few_events', 'gate_fraction_big', 'gate_fracti
 
 
 def channels_of(inst):
-    return [inst['fsc'], inst['ssc']] + list(inst['fl']) + [inst['time']]
+    return list(inst.get('layout') or ([inst['fsc'], inst['ssc']] + list(inst['fl']) + [inst['time']]))
 
 
 def file_spec(desc):
     """desc -> fcs_ref spec (deterministic in desc['seed'])."""
     inst = desc['inst']
     names = channels_of(inst)
-    nfl = len(inst['fl'])
+    fl_names = list(inst['fl'])
+    sc_names = [n for n in names if n not in fl_names and n != inst['time']]
+    nfl = len(fl_names)
     D = len(names)
     g = np.random.default_rng(desc['seed'])
     N = desc['n']
     dt = desc.get('datatype', 'I')
-    cols = []
+    res = 256 if (desc.get('res256') and dt == 'I') else 1024
+    col = {}
     if desc['kind'] == 'beads':
         npop = desc.get('npop', 6)
         mef = np.array(MEF_LADDER[:npop], dtype=float)
         per = N // npop
-        parts = []
-        for k in range(npop):
-            n_k = per if k < npop - 1 else N - per * (npop - 1)
-            fsc = np.clip(g.normal(500, 25, n_k), 1, 1022)
-            ssc = np.clip(g.normal(420, 25, n_k), 1, 1022)
-            fls = []
-            for j in range(nfl):
-                m, b, auto = 1.05 - 0.03 * j, 2.0 + 0.3 * j, 300. + 100 * j
+        sizes = [per] * (npop - 1) + [N - per * (npop - 1)]
+        order = g.permutation(N)
+        for si, nm in enumerate(sc_names):
+            col[nm] = np.concatenate([np.clip(g.normal(500 - 40 * si, 25, n_k), 1, 1022) for n_k in sizes])[order]
+        for j, nm in enumerate(fl_names):
+            m, b, auto = 1.05 - 0.03 * (j % 3), 2.0 + 0.3 * (j % 3), 300. + 100 * (j % 3)
+            parts = []
+            for k, n_k in enumerate(sizes):
                 rfi = np.exp((np.log(mef[k] + auto) - b) / m)
                 fl = rfi * np.exp(g.normal(0, 0.04, n_k))
-                fls.append(np.clip(np.round(1024 / 4. * np.log10(fl)), 0, 1023))
-            parts.append(np.c_[fsc, ssc] if not fls else np.c_[fsc, ssc, np.c_[tuple(fls)]])
-        ev = np.vstack(parts)
-        g.shuffle(ev)
-        ev = np.c_[ev, np.arange(N) * 3]
-        ev = np.round(ev).astype(np.int64)
+                parts.append(np.clip(np.round(res / 4. * np.log10(fl)), 0, res - 1))
+            col[nm] = np.concatenate(parts)[order]
+        col[inst['time']] = np.arange(N) * 3
     else:
-        fsc = np.clip(g.normal(520, 90, N), 0, 1023)
-        ssc = np.clip(g.normal(380, 110, N), 0, 1023)
-        fls = []
-        for j in range(nfl):
-            if dt == 'I':
-                fl = np.exp(g.normal(np.log(200. * (j + 1)), 0.6, N))
-                fls.append(np.clip(np.round(1024 / 4. * np.log10(fl)), 0, 1023))
+        base = {0: np.clip(g.normal(520, 90, N), 0, 1023), 1: np.clip(g.normal(380, 110, N), 0, 1023)}
+        for si, nm in enumerate(sc_names):
+            if si < 2:
+                col[nm] = base[si]
             else:
-                x = g.normal(180. * (j + 1), 160., N)                 # includes non-positive events
+                col[nm] = np.clip(base[si % 2] * (0.8 + 0.3 * (si % 2)) + g.normal(0, 15, N), 0, 1023)
+        for j, nm in enumerate(fl_names):
+            if dt == 'I':
+                fl = np.exp(g.normal(np.log(200. * (j % 4 + 1)), 0.6, N))
+                col[nm] = np.clip(np.round(res / 4. * np.log10(fl)), 0, res - 1)
+            else:
+                x = g.normal(180. * (j % 4 + 1), 160., N)             # includes non-positive events
                 if desc.get('clip0') and j % 2 == 0:
                     x = np.clip(x, 0.0, None)                         # exact zeros, no negatives
-                fls.append(x)
-        ev = np.c_[fsc, ssc, np.c_[tuple(fls)], np.arange(N) * 2 + 5]
+                col[nm] = x
+        col[inst['time']] = np.arange(N) * 2 + 5
         if dt == 'I':
-            ev = np.round(ev).astype(np.int64)
-            # a few saturated events in scatter and fluorescence channels
+            # a few saturated events in every scatter and fluorescence channel
             k = max(1, N // 60)
-            idx = g.choice(N, size=min(N, 4 * k), replace=False)
-            ev[idx[:k], 0] = 1023
-            ev[idx[k:2 * k], 1] = 0
-            for j in range(nfl):
+            for nm in sc_names:
                 jj = g.choice(N, size=min(N, 2 * k), replace=False)
-                ev[jj[:k], 2 + j] = 1023
-                ev[jj[k:], 2 + j] = 0
+                col[nm] = np.array(col[nm])
+                col[nm][jj[:k]] = 1023
+                col[nm][jj[k:]] = 0
+            for nm in fl_names:
+                jj = g.choice(N, size=min(N, 2 * k), replace=False)
+                col[nm][jj[:k]] = res - 1
+                col[nm][jj[k:]] = 0
+    ev = np.c_[tuple(np.asarray(col[nm], dtype=float) for nm in names)]
     if dt == 'I':
+        ev = np.round(ev).astype(np.int64)
         widths = [16] * D
-        ranges = [1024] * (D - 1) + [65536 * 4]
-        widths[-1] = 32
+        ranges = [(res if nm in fl_names else 1024) for nm in names]
+        ti = names.index(inst['time'])
+        widths[ti] = 32
+        ranges[ti] = 65536 * 4
         events = ev.tolist()
     else:
         widths = [32] * D
         ranges = [262144] * D
         events = [[float(np.float32(v)) for v in row] for row in ev.tolist()]
     amp = desc.get('amp', 'log')
-    pne = ['0,0', '0,0'] + [('4,1' if (amp == 'log' and dt == 'I') else '0,0')] * nfl + ['0,0']
+    pne = [('4,1' if (nm in fl_names and amp == 'log' and dt == 'I') else '0,0') for nm in names]
     extra = [['$TIMESTEP', '0.01'], ['$BTIM', '10:00:00'], ['$ETIM', '10:03:20'], ['$DATE', '05-JAN-2020']]
     volt = desc.get('volt', 500)
-    for j in range(nfl):
+    for j, nm in enumerate(fl_names):
         if volt is not None:
-            extra.append(['$P%dV' % (3 + j), str(volt + 50 * j)])
-    if desc.get('gain'):
-        extra.append(['$P1G', str(desc['gain'])])
+            extra.append(['$P%dV' % (names.index(nm) + 1), str(volt + 50 * (j % 4))])
+    if desc.get('sgain'):
+        # linear scatter amplifiers with a gain: the scatter conversion to RFI is not the identity
+        for si, nm in enumerate(sc_names):
+            extra.append(['$P%dG' % (names.index(nm) + 1), str(desc['sgain'] * (si + 1))])
     spec = {'version': desc.get('version', 'FCS3.0'), 'datatype': dt, 'byteord': desc.get('byteord', '1,2,3,4'),
             'widths': widths, 'ranges': ranges, 'names': names, 'delim': '/', 'order': ['TEXT', 'DATA'],
             'pne': pne, 'events': events, 'extra': extra, 'header_data': True}
@@ -108,12 +123,16 @@ def file_bytes(desc):
     return fcs_ref.build(file_spec(desc))[0]
 
 
-def gen_experiment(rng, faults=True, max_samples=5, max_beads=2, small=False, plan=None):
+def gen_experiment(rng, faults=True, max_samples=5, max_beads=2, small=False, plan=None, wide=False):
     """Returns a JSON-able experiment: instruments, files, beads rows, sample rows (with fault annotations).
     `plan` (optional) forces the instrument, fault kind and calibration content of every row:
     {'n_inst': 2, 'beads': [{'inst': 0, 'fault': None, 'mef': 1}, ...], 'samples': [{'inst': 0, 'fault': 'few_events'}, ...]}"""
     n_inst = plan['n_inst'] if plan else rng.wchoice([(1, 5), (2, 3), (3, 1)])
     insts = copy.deepcopy(INSTRUMENTS[:n_inst])
+    if not plan and rng.chance(0.3):
+        insts.append(copy.deepcopy(SIBLING))
+    if wide:
+        insts = [copy.deepcopy(WIDE)]
     files = {}
     exp = {'instruments': insts, 'files': files, 'beads': [], 'samples': []}
     nb = len(plan['beads']) if plan else rng.randint(0, max_beads)
@@ -254,7 +273,26 @@ def gen_experiment(rng, faults=True, max_samples=5, max_beads=2, small=False, pl
             c = sorted(gb['mef'])[0]
             row['units'][c] = 'MEF'
             volt = volt + 75
+        reuse = None
+        if f is None and not plan and exp['samples'] and rng.chance(0.3):
+            # the same file again, possibly seen through the sibling description of the cytometer
+            prev = exp['samples'][-1]
+            pinst = [i for i in insts if i['ID'] == prev['Instrument ID']][0]
+            if prev['fault'] is None and channels_of(pinst) == channels_of(inst) and \
+                    files.get(prev['File Path'], {}).get('datatype', 'I') == dt and not any(
+                        (u or '').strip().lower() == 'mef' for u in row['units'].values()):
+                reuse = prev['File Path']
+        if reuse:
+            row['File Path'] = reuse
+            row['fault'] = None
+            sib = [i for i in insts if i['ID'] != pinst['ID'] and channels_of(i) == channels_of(pinst)]
+            if sib and rng.chance(0.7):
+                row['Instrument ID'] = sib[0]['ID']
+            exp['samples'].append(row)
+            continue
         row['File Path'] = new_file('cells', inst, n, datatype=dt, volt=volt, amp=amp, clip0=bool(dt == 'F' and rng.chance(0.4)),
+                                    sgain=rng.choice([None, None, 2.0, 0.5]), res256=bool(f is None and rng.chance(0.2)
+                                                                                        and not good_beads),
                                     version=rng.choice(['FCS2.0', 'FCS3.0', 'FCS3.1']),
                                     byteord=rng.choice(['1,2,3,4', '4,3,2,1']))
         if f == 'file_not_found':
